@@ -1,14 +1,28 @@
 """C13 - decided by spec/PonySession.tla: TLC checks the specification's invariants and action properties
 exhaustively in the bounded model; behaviours of the exported state graph are replayed into the real ORM on
 SQLite (harness/session.py) and this property's comparator decides (see harness/session_check.py)."""
-from .. import session_check, session_replay
+from .. import session_check, session_replay, cascade_c13
 
 LEVEL = 'model_checking'
 
 
 def run(ctx):
     session_check.run(ctx, 'C13')
+    # spec/PonyCascade.tla: a delete refused midway through a cascade (three entities, two collections)
+    quick = ctx.tier == 'quick'
+    res, stats, found, nedges, nvisited = cascade_c13.run(ctx, 1500 if quick else 12000, 6 if quick else 8, ctx.seed)
+    for what, trace in found:
+        last = trace[-1]
+        ctx.mismatch('C13:cascade:%s:%s:%s' % (last.get('op'), last.get('e'), last.get('out')), what, {'cascade_trace': trace})
+    ctx.coverage['states'] += res.distinct
+    ctx.coverage['transitions'] += res.generated
+    ctx.coverage['traces_validated_against_impl'] += stats['behaviours']
+    ctx.coverage['cascade_model'] = dict(stats, graph_transitions=nedges, graph_transitions_replayed=nvisited)
 
 
 def replay(ctx, rep):
+    if 'cascade_trace' in rep:
+        cascade_c13.replay(ctx, rep)
+        ctx.violations.append('replayed')
+        return
     session_replay.replay(ctx, rep)
